@@ -1155,7 +1155,7 @@ func c18Context(c *Ctx) {
 							return false
 						}
 						if reachableOnSide(fn, cmp, r.Block(), 1) {
-							c.ob("C18-R9", fnKey(fn)+"#only-at-line-start-"+itoa(k), r.Pos(), falseGiven(retVals(r)[0], r.Block(), 0), "the predicate of compaction can answer true for a word that does not start its line (inside any block): expansion never writes a keyword there, so the word is the program's own identifier - `{validate: true}` comes back as `{?: true}`, `input.use` as `input.%` and the round trip no longer parses")
+							c.ob("C18-R9", fnKey(fn)+"#only-at-line-start-"+itoa(k), r.Pos(), falseGiven(retVals(r)[0], r.Block(), 0), "a context predicate of the transformer can answer true for a token that does not start its line: expansion and compaction rewrite at the start of a line only, so a keyword written elsewhere (`if ok { $ u.name = 1 }` expanded after the brace) is never rewritten back, and a word rewritten elsewhere (`{validate: true}`, `input.use`) was the program's own identifier - the round trip no longer parses")
 						}
 					}
 				})
@@ -1480,13 +1480,10 @@ func isKeywordPredicate(fn *ssa.Function) bool {
 	}
 	r := false
 	eachCall(tr, func(cl ssa.CallInstruction) {
-		if staticFn(cl) != fn {
-			return
-		}
-		for _, a := range cl.Common().Args {
-			if _, isSlice := a.(*ssa.Slice); isSlice {
-				r = true
-			}
+		if staticFn(cl) == fn {
+			// either predicate of the transformer: since compaction rewrites only at the start of a line, expansion
+			// must not write a keyword anywhere else (after a `{` on the same line, say) - nothing would rewrite it back
+			r = true
 		}
 	})
 	return r
